@@ -138,10 +138,65 @@ def kani_part(ctx):
     q = ['c13_gate_low', 'c13_gate_high', 'c13_twin_must_fail']
     t = ['c13_gate_zero', 'c13_order_low', 'c13_order_high', 'c13_add_high', 'c13_sub_low', 'c13_add_zero']
     names = q + (t if ctx.tier == 'thorough' else [])
-    specs = [dict(harness=h, timeout_s=1800, functions=fn, must_fail=h.endswith('must_fail'),
+    # (c13_add_zero: the window around 0 cannot leave the range, so its "result leaves the range" witness is unsatisfiable by design)
+    specs = [dict(harness=h, timeout_s=1800, functions=fn, must_fail=h.endswith('must_fail'), allow_unsat_cover=(h == 'c13_add_zero'),
                   bounds='unix seconds within +-100000 of the range end / of 0 (arithmetic: +-60 s, durations <= 120 s)') for h in names]
     res = kanirun.run_many(specs)
     kanirun.judge(ctx, specs, res, 'c13')
+
+
+def text_forms(ctx, prog):
+    """Every text form of a Timestamp is `to_rfc3339()` - Display, String::from, the derived Serialize (serde `into = "String"`): one
+    formatter, so format-then-parse and the JSON round trip are the same identity (a second, hand-written formatter disagrees with it
+    somewhere - years below 1000, say)."""
+    A = Auditor(ctx, prog)
+    RT = R('[parse-text]')
+
+    def only_rfc(p, leaf):
+        if p.kind != 'return':
+            return 'panic ' + p.msg
+        tr = [c for c in p.calls if re.search(r'Timestamp::to_rfc3339$', c.name) and mentions(c.args[0], leaf)]
+        if len(tr) != 1:
+            return 'text not produced by to_rfc3339 of this value'
+        other = [c for c in p.calls if re.search(r'to_calendar_date|to_hms|::year$|::month$|::day$|::hour$|::minute$|::second$|format_into|::format$', c.name)]
+        if other:
+            return 'a second formatter next to to_rfc3339 (%s)' % other[0].name.split('::')[-1]
+        return None
+
+    def r_disp(p):
+        e = only_rfc(p, r'^self$')
+        if e:
+            return e
+        tr = [c for c in p.calls if re.search(r'Timestamp::to_rfc3339$', c.name)][0]
+        return None if any(s_ == tr.ret for s_ in subterms(p.term())) else 'what is written is not the to_rfc3339 text'
+    fmts = [g for g in prog.find(r'timestamp::<impl at [^>]*>::fmt$') if 'Timestamp' in ' '.join(t for _, t in g.args)]
+    if not fmts:
+        raise Refuse('no fmt impl of Timestamp found')
+    for g in fmts:   # Display and Debug
+        m = re.search(r'timestamp\.rs:(\d+):', g.name)
+        paths, ex = A.paths(g)
+        A.require('fmt[line %s]/writes-to_rfc3339' % (m.group(1) if m else '?'), paths, r_disp, replay=RT)
+
+    f = prog.one(r'timestamp::<impl at [^>]*>::from$', sig=r'^(\w+::)*Timestamp -> (\w+::)*String')
+    paths, ex = A.paths(f)
+    A.require('String::from/is-to_rfc3339', paths,
+              lambda p: only_rfc(p, r'^timestamp$') or (None if strip(p.term()) == strip([c for c in p.calls if re.search(r'to_rfc3339$', c.name)][0].ret) else 'result is not the to_rfc3339 text'), replay=RT)
+
+    fs = [g for g in prog.find(r'timestamp::_::<impl at [^>]*>::serialize$') if 'Timestamp' in ' '.join(t for _, t in g.args)]
+    if len(fs) != 1:
+        ctx.add(Ob('Serialize/through-String::from', 'M', INCONCLUSIVE, detail='derived Serialize of Timestamp: %d candidates (a hand-written impl is not recognised)' % len(fs)))
+        return
+    paths, ex = A.paths(fs[0])
+
+    def r_ser(p):
+        if p.kind != 'return':
+            return 'panic ' + p.msg
+        conv = [c for c in p.calls if re.search(r'<(\w+::)*Timestamp as (\w+::)*Into<(\w+::)*String>>::into$|From<(\w+::)*Timestamp>>::from$', c.name)]
+        ser = [c for c in p.calls if re.search(r'<(\w+::)*String as (\w+::)*Serialize>::serialize$', c.name)]
+        if len(conv) != 1 or len(ser) != 1 or not any(s_ == conv[0].ret for s_ in subterms(ser[0].args[0])):
+            return 'the value is not serialised as the String it converts into'
+        return None
+    A.require('Serialize/through-String::from', paths, r_ser, replay=RT)
 
 
 def main(ctx):
@@ -151,5 +206,6 @@ def main(ctx):
                     'mid-range dates away from the windows', 'serde leg beyond its delegation to parse']
     ctx.stubs.append('none (error values are matched and forgotten, never dropped)')
     guarded(ctx, 'constructor routing audit', 'M', lambda: run(ctx, prog))
+    guarded(ctx, 'text forms', 'M', lambda: text_forms(ctx, prog))
     if os.environ.get('VERIF_SKIP_K') != '1':
         guarded(ctx, 'range gate windows', 'K', lambda: kani_part(ctx))
